@@ -713,6 +713,32 @@ fn run_subsec(c: &SubSec, obs: &mut Obs) -> CheckResult {
         "window [{:?}, {:?}] at {:?} (seconds, nanoseconds): verify_at ok={} (verify_not_before ok={}, verify_not_after ok={}), expected ok={}",
         c.nb, c.na, c.now, got, tnb.verify_not_before(tnow).is_ok(), tna.verify_not_after(tnow).is_ok(), exp
     );
+    // trim at sub-second resolution: a second window derived from the case
+    // (ends shifted by the distance between `now` and the first window's ends)
+    // must intersect exactly; the result accepts a probe iff both inputs do.
+    let shift = |t: (i64, u32), by: (i64, u32)| -> (i64, u32) {
+        let total = t.1 as i64 + by.1 as i64;
+        ((t.0 + by.0 + total / 1_000_000_000).clamp(TS_MIN + 2, TS_MAX - 2), (total % 1_000_000_000) as u32)
+    };
+    let d = ((c.now.0 - c.nb.0).rem_euclid(3) - 1, c.now.1);
+    let (nb2, na2) = (shift(c.nb, d), shift(c.na, (-d.0, 1_000_000_000 - d.1.max(1))));
+    let v2 = Validity::new(lib_time_ns(nb2)?, lib_time_ns(na2)?);
+    let (w, w_rev) = (v.trim(v2), v2.trim(v));
+    let (enb, ena) = (c.nb.max(nb2), c.na.min(na2));
+    let inside = |a: (i64, u32), b: (i64, u32), p: (i64, u32)| a <= p && p <= b;
+    let mut ok = w.not_before() == lib_time_ns(enb)? && w.not_after() == lib_time_ns(ena)? && w_rev == w;
+    for p in [c.nb, c.na, nb2, na2, c.now, enb, ena] {
+        ok &= w.verify_at(lib_time_ns(p)?).is_ok() == (inside(c.nb, c.na, p) && inside(nb2, na2, p));
+    }
+    ensure_sig!(
+        ok, "validity-trim-subsecond",
+        "trim([{:?}, {:?}], [{:?}, {:?}]) = [{}.{:09}, {}.{:09}] (reverse order gives [{}.{:09}, {}.{:09}]), intersection is [{:?}, {:?}]",
+        c.nb, c.na, nb2, na2,
+        w.not_before().timestamp(), w.not_before().timestamp_subsec_nanos(), w.not_after().timestamp(), w.not_after().timestamp_subsec_nanos(),
+        w_rev.not_before().timestamp(), w_rev.not_before().timestamp_subsec_nanos(), w_rev.not_after().timestamp(), w_rev.not_after().timestamp_subsec_nanos(),
+        enb, ena
+    );
+    obs.label_if(enb.0 == c.nb.0 && enb.0 == nb2.0 && c.nb != nb2, "trim-same-second-bounds");
     Ok(())
 }
 
@@ -1174,7 +1200,7 @@ pub fn property() -> Property {
                 strategy: subsec_strategy,
                 cases: |t| t.pick(1_000_000, 20_000_000),
                 run: run_subsec,
-                floors: &[("subsecond-near-edge", 0.3), ("inside", 0.2), ("outside", 0.2)],
+                floors: &[("subsecond-near-edge", 0.3), ("inside", 0.2), ("outside", 0.2), ("trim-same-second-bounds", 0.1)],
             }
             .boxed(),
             EnumSub { name: "serial-enum", count: count_serial_enum, make: make_serial_enum, run: run_serial_enum, exhaustive: true }.boxed(),
